@@ -342,6 +342,56 @@ static void scenario_values(void)
     scenario_end("values");
 }
 
+/* ------------------------------------------------------------------ S7: payload lengths on every prefix-width boundary, at every alignment */
+static void scenario_large(void)
+{
+    scenario_begin("large");
+    static uint8_t pay[65537], out[70000];
+    static vf_doc d;
+    for (size_t i = 0; i < sizeof pay; i++) pay[i] = (uint8_t) ('a' + i % 23);
+    static const size_t lens[] = { 127, 128, 255, 256, 32767, 32768, 65535, 65536 };
+    for (size_t li = 0; li < sizeof lens / sizeof lens[0]; li++)
+        for (int role = 0; role < 3; role++)
+            for (int pad = 0; pad < 4; pad++) {
+                vf_b_reset(&d);
+                vf_b_open(&d, VK_OBJ);
+                if (pad) { vf_b_name(&d, "\x01\x01\x01", (size_t) pad - 1 + (pad == 1)); vf_b_bool(&d, true); }
+                if (role == 2) { vf_b_name(&d, pay, lens[li]); vf_b_int(&d, 5); }
+                else { vf_b_name(&d, "k", 1); vf_b_blob(&d, role == 0 ? VK_STR : VK_BYT, pay, lens[li]); }
+                vf_b_close(&d);
+                vf_live L;
+                vf_live_alloc(&L, d.bytes, d.len, 2, 0);
+                binson_parser *p = L.p;
+                const uint8_t *base = vf_live_bufptr(&L);
+                bool i = binson_parser_init_object(p, base, L.len), v = binson_parser_verify(p);
+                binson_err ve = p->error_flags;
+                bool e = binson_parser_go_into_object(p);
+                fold("large len%zu role%d pad%d init=%d verify=%d verr=%d enter=%d", lens[li], role, pad, i, v, (int) ve, e);
+                while (binson_parser_next(p)) {
+                    bbuf *nm = binson_parser_get_name(p), *s = binson_parser_get_string_bbuf(p), *y = binson_parser_get_bytes_bbuf(p);
+                    fold(" field type=%d name=%ld/%zu str=%ld/%zu byt=%ld/%zu int=%lld", (int) binson_parser_get_type(p), nm ? (long) (nm->bptr - base) : -1L, nm ? nm->bsize : 0,
+                         s ? (long) (s->bptr - base) : -1L, s ? s->bsize : 0, y ? (long) (y->bptr - base) : -1L, y ? y->bsize : 0, (long long) binson_parser_get_integer(p));
+                    NTRANS++;
+                }
+                bool lv = binson_parser_leave_object(p);
+                size_t need = 0;
+                bool ts = binson_parser_to_string(p, NULL, &need, false);
+                fold(" end leave=%d err=%d tostring=%d need=%zu", lv, (int) p->error_flags, ts, need);
+                /* the same value through the writer */
+                binson_writer w;
+                binson_writer_init(&w, out, sizeof out);
+                binson_write_object_begin(&w);
+                if (role == 2) { binson_write_name_with_len(&w, (const char *) pay, lens[li]); binson_write_integer(&w, 5); }
+                else { binson_write_name(&w, "k"); if (role == 0) binson_write_string_with_len(&w, (const char *) pay, lens[li]); else binson_write_bytes(&w, pay, lens[li]); }
+                binson_write_object_end(&w);
+                fold(" written n=%zu err=%d hash=%016llx", binson_writer_get_counter(&w), (int) w.error_flags,
+                     (unsigned long long) vf_hash_bytes(VF_HASH_INIT, out, binson_writer_get_counter(&w) < sizeof out ? binson_writer_get_counter(&w) : sizeof out));
+                NSTATES++;
+                vf_live_free(&L);
+            }
+    scenario_end("large");
+}
+
 int main(int argc, char **argv)
 {
     for (int i = 1; i < argc; i++) if (!strcmp(argv[i], "--log") && i + 1 < argc) LOGSCN = argv[++i];
@@ -352,5 +402,6 @@ int main(int argc, char **argv)
     scenario_writer();
     scenario_text();
     scenario_values();
+    scenario_large();
     return 0;
 }
